@@ -50,6 +50,15 @@ fn lint_by_ref_arg(
             match &arg_pos.element {
                 Expression::ArrayElement(name, args, expression_type) => {
                     if args.is_empty() {
+                        // an array of fixed length strings is not an array of strings:
+                        // the elements are not converted when an array is passed
+                        if let (
+                            ResolvedParamType::BuiltIn(_, _),
+                            ExpressionType::FixedLengthString(_),
+                        ) = (boxed_element_type.as_ref(), expression_type)
+                        {
+                            return Err(LintError::ArgumentTypeMismatch.at(arg_pos));
+                        }
                         let dummy_expr =
                             Expression::Variable(name.clone(), expression_type.clone()).at(arg_pos);
                         lint_by_ref_arg(&dummy_expr, boxed_element_type.as_ref())
@@ -180,5 +189,17 @@ impl<'a> PostConversionLinter for UserDefinedFunctionLinter<'a> {
             Expression::FunctionCall(n, args) => self.visit_function(n, expr_pos.pos, args),
             _ => Ok(()),
         }
+    }
+}
+
+#[cfg(test)]
+mod fixed_length_string_array_tests {
+    use crate::assert_linter_err;
+    use crate::core::LintError;
+
+    #[test]
+    fn array_of_fixed_length_strings_is_not_an_array_of_strings() {
+        let input = "DIM A(1 TO 2) AS STRING * 3\nS A()\nSUB S (P$())\nEND SUB";
+        assert_linter_err!(input, LintError::ArgumentTypeMismatch, 2, 3);
     }
 }
